@@ -34,18 +34,28 @@ Sanity(f, att, expectKind) ==
   ELSE IF f.text # "al" THEN "InvalidData"
   ELSE "ok"
 
+\* open(2) flags beyond read / write / create: absent from an attempt record = FALSE
+Flag(att, name) == IF name \in DOMAIN att THEN att[name] ELSE FALSE
+\* std::fs::OpenOptions refuses append + truncate (without create_new) before any system call: EINVAL
+FlagsRefused(att) == Flag(att, "append") /\ Flag(att, "truncate") /\ ~att.create_new
+
 Out(res, len, tz, created) == [res |-> res, len |-> len, tailZeroed |-> tz, created |-> created]
 
 \* map_mut / map_copy
 OpenWritable(f, att) ==
   LET shared == att.variant = "map_mut" IN
-  IF att.create_new /\ f.exists THEN Out("AlreadyExists", f.len, FALSE, FALSE)
+  IF FlagsRefused(att) THEN Out("InvalidInput", f.len, FALSE, FALSE)
+  ELSE IF att.create_new /\ f.exists THEN Out("AlreadyExists", f.len, FALSE, FALSE)
   ELSE IF ~f.exists /\ ~(att.create \/ att.create_new) THEN Out("NotFound", 0, FALSE, FALSE)
   ELSE IF ~f.exists \/ att.create_new THEN
        \* a new file: set_len(cap), zero, write identification + header
        (IF att.cap = 0 THEN Out("InvalidInput", 0, FALSE, TRUE)        \* empty file cannot hold the prefix
         ELSE IF Prefix(att.reserved) > att.cap THEN Out("InvalidInput", att.cap, FALSE, TRUE)
         ELSE Out("ok", att.cap, FALSE, TRUE))
+  \* truncate(true) on an existing file: open(2) empties it (O_TRUNC), the code then takes it for an existing arena
+  \* file (opts.open answers "not newly created") and an empty file cannot hold the prefix: the open is ALWAYS refused
+  \* and the file is left empty -- with or without create(true), whatever capacity is given
+  ELSE IF Flag(att, "truncate") THEN Out("InvalidInput", 0, f.len > 0, FALSE)
   ELSE IF f.len < Prefix(att.reserved) THEN Out("InvalidInput", f.len, FALSE, FALSE)          \* 370-375
   ELSE
   LET len2 == IF att.cap # 0 /\ f.len < att.cap THEN att.cap ELSE f.len                       \* 377-381 set_len
@@ -78,6 +88,8 @@ Mismatch(f, att) ==
    \/ (f.len >= att.reserved + 8 /\ (~KindValid(f.kind) \/ (Writable(att) /\ f.kind # att.kind)
                                       \/ f.magic # att.magic \/ f.ver # 0 \/ f.text # "al")))
 MismatchRefused(f, att, o) == Mismatch(f, att) => o.res # "ok"
-RefusedLeavesBytes(f, att, o) == (o.res # "ok" /\ f.exists) => (~o.tailZeroed /\ o.len >= f.len)
+\* the caller asked for the file to be emptied: what happens to its bytes is not for C09 to judge
+AskedToTruncate(att) == Writable(att) /\ Flag(att, "truncate") /\ ~Flag(att, "append")
+RefusedLeavesBytes(f, att, o) == (o.res # "ok" /\ f.exists /\ ~AskedToTruncate(att)) => (~o.tailZeroed /\ o.len >= f.len)
 ReadOnlyNeverWrites(f, att, o) == (~Writable(att) /\ f.exists) => (~o.tailZeroed /\ o.len = f.len)
 =============================================================================
